@@ -841,6 +841,10 @@ func init() {
 		NotDecided: "that the n receipts are by n distinct subscriptions and each subscription sees a contiguous run (these depend on interleavings inside ChanCaster and are model-checking territory); one global order beyond the serialisation by sendMu.",
 		Build: func(c *Ctx) []*an.Oblig {
 			pubsubC06(c)
+			// membership accounting is a premise of "exactly the standing subscribers, each once": an Unsubscribe that can run
+			// before its Subscribe (or twice) absorbs a copy owed to a standing subscriber; an instance falsely marked broken
+			// panics instead of returning 0
+			pubsubC07(c)
 			out := c.sel(func(o *an.Oblig) bool {
 				if isUndecided(o) || o.Rule == "ANCHOR" {
 					return true
